@@ -74,6 +74,19 @@ def match_types(writer_type, reader_type, named_schemas):
     return False
 
 
+def _same_name(w_schema, r_schema):
+    """Both are (references to) named types with the same full name"""
+    w_name = w_schema.get("name") if isinstance(w_schema, dict) else w_schema
+    r_name = r_schema.get("name") if isinstance(r_schema, dict) else r_schema
+    return (
+        isinstance(w_name, str)
+        and w_name == r_name
+        and w_name not in AVRO_TYPES
+        and not (isinstance(w_schema, dict) and w_schema["type"] not in NAMED_TYPES)
+        and not (isinstance(r_schema, dict) and r_schema["type"] not in NAMED_TYPES)
+    )
+
+
 def _same_type(w_schema, r_schema):
     w_type = extract_record_type(w_schema)
     r_type = extract_record_type(r_schema)
@@ -93,6 +106,11 @@ def match_schemas(w_schema, r_schema, named_schemas):
     elif isinstance(r_schema, list):
         # If the reader is a union, the first schema of the same type as the
         # writer wins; only then schemas reachable by promotion are considered
+        for schema in r_schema:
+            if _same_name(w_schema, schema) and match_types(
+                w_schema, schema, named_schemas
+            ):
+                return schema
         for schema in r_schema:
             if _same_type(w_schema, schema) and match_types(
                 w_schema, schema, named_schemas
@@ -450,9 +468,11 @@ def read_union(
             else:
                 raise SchemaResolutionError(msg)
         else:
-            candidates = [
-                schema for schema in reader_schema if _same_type(idx_schema, schema)
-            ] + list(reader_schema)
+            candidates = (
+                [s for s in reader_schema if _same_name(idx_schema, s)]
+                + [s for s in reader_schema if _same_type(idx_schema, s)]
+                + list(reader_schema)
+            )
             for schema in candidates:
                 if match_types(idx_schema, schema, named_schemas):
                     idx_reader_schema = schema
